@@ -20,7 +20,7 @@
    * two Saves of ONE key at the same time share one spool file name; nothing is claimed
      for that (the interleaving theorems are for different keys);
    * the tie to the kernel is by observation (strace), see harness/c19.go. *)
-From MQ Require Import Bytes FS FSProofs C19Check C19CheckProofs.
+From MQ Require Import Bytes FS FSProofs FSDiscipline C19Check C19CheckProofs.
 
 (* ---- Save: every stop point, every fault ---- *)
 
@@ -248,3 +248,79 @@ Theorem c19_big_closed_form :
      load k (run d (cut_bytes lim (save_calls k bufs NoFault leak))) = load k d).
 Proof. split; [exact save_cut_calls_closed | exact save_cut_bytes_closed]. Qed.
 Print Assumptions c19_big_closed_form.
+
+(* ---- the class of disciplined traces: the theorem behind the tie ----
+   The theorems above are about ONE executable model of Save (save_calls: one write per
+   buffer, fsync, close, rename, cleanup).  The ones below are about every system-call trace
+   the scanner [disciplined] accepts -- any split of the record into writes, anything on other
+   names before, between and after -- so that a Save which talks to the kernel differently
+   but keeps the discipline (nothing under the key name except by a rename of a spool file
+   that holds the complete record, all of it covered by an fsync) is still covered by a
+   theorem, and the correspondence run (c19_agree: exact calls, or else the recorded calls
+   are disciplined and explain what was found) still ties it. *)
+
+(* Stopped anywhere in a disciplined trace, also inside a data write: under the key name is
+   the old entry or the complete new record, flushed. *)
+Theorem c19_disciplined_atomic :
+  forall kn sp new l d p,
+    disciplined kn sp new dst0 l = true -> stop_prefix p l ->
+    lookup kn (run d p) = lookup kn d \/ lookup kn (run d p) = Some (mkfile new true).
+Proof. exact disciplined_atomic. Qed.
+Print Assumptions c19_disciplined_atomic.
+
+(* Without the rename the key entry is never touched (a Save that fails keeps the old value). *)
+Theorem c19_disciplined_no_rename_keeps_old :
+  forall kn sp new l d p,
+    disciplined kn sp new dst0 l = true -> renamed_in kn sp l = false -> stop_prefix p l ->
+    lookup kn (run d p) = lookup kn d.
+Proof. intros kn sp new l d p D R. exact (no_rename_keeps_gen kn sp new l dst0 d D R p). Qed.
+Print Assumptions c19_disciplined_no_rename_keeps_old.
+
+(* Members: creat, the record in ANY split, fsync, close, rename, then any calls on other
+   names (a directory fsync, say). *)
+Theorem c19_chunked_save_atomic :
+  forall kn sp new, kn <> sp ->
+  forall chunks tail d p,
+    concat chunks = new -> off_names kn sp tail ->
+    stop_prefix p (chunked_save kn sp chunks tail) ->
+    lookup kn (run d p) = lookup kn d \/ lookup kn (run d p) = Some (mkfile new true).
+Proof. exact chunked_save_atomic. Qed.
+Print Assumptions c19_chunked_save_atomic.
+
+(* The executable model is a member. *)
+Theorem c19_model_is_disciplined :
+  forall k bufs leak,
+    disciplined (key_name k) (spool_name k) (concat bufs) dst0 (save_calls k bufs NoFault leak) = true.
+Proof. exact save_calls_disciplined. Qed.
+Print Assumptions c19_model_is_disciplined.
+
+(* What the generalised agreement of the correspondence run accepts is atomic: when the calls
+   strace recorded for a Save pass the scanner, then stopped at any call boundary or inside a
+   data write, from any directory, Load gives the old value or the complete new one ... *)
+Theorem c19_tie_class_atomic :
+  forall k bufs dry st d,
+    dry_disciplined k bufs dry = true ->
+    let d' := run d (stop_calls st (rebuild (concat bufs) 0 dry)) in
+    load k d' = load k d \/ load k d' = Some (concat bufs).
+Proof. exact dry_disciplined_atomic. Qed.
+Print Assumptions c19_tie_class_atomic.
+
+(* ... and a Save it accepts with an error result left the key entry alone at every stop point. *)
+Theorem c19_tie_class_failed_keeps_old :
+  forall k bufs pre calls post p d,
+    save_seq_gen k bufs pre calls false post = true ->
+    stop_prefix p (rebuild (concat bufs) 0 calls) ->
+    lookup (key_name k) (run d p) = lookup (key_name k) d.
+Proof. exact save_seq_gen_failed_keeps_old. Qed.
+Print Assumptions c19_tie_class_failed_keeps_old.
+
+(* Non-vacuity: one write of the whole record and a directory fsync afterwards is accepted;
+   a rename before the fsync is not. *)
+Example c19_single_write_dirsync_disciplined :
+  disciplined (key_name 7) (spool_name 7) [1; 2; 3] dst0
+    [Creat (spool_name 7); Write (spool_name 7) [1; 2; 3]; Fsync (spool_name 7);
+     Close (spool_name 7); Rename (spool_name 7) (key_name 7); Fsync [46]] = true
+  /\ disciplined (key_name 7) (spool_name 7) [1; 2; 3] dst0
+    [Creat (spool_name 7); Write (spool_name 7) [1; 2; 3];
+     Rename (spool_name 7) (key_name 7); Fsync (spool_name 7)] = false.
+Proof. split; vm_compute; reflexivity. Qed.
